@@ -108,8 +108,11 @@ class G:
 
 DIAG_HELPERS = {"raise_error", "expect", "_parse_token", "parse_punctuation", "parse_keyword", "_consume_token",
                 "parse_characters", "_raise_wrong_str_enum_value_error"}
-TIERA_FILES = ("/xdsl/parser/", "/xdsl/utils/", "/xdsl/ir/", "/xdsl/irdl/", "/xdsl/dialects/builtin.py", "/xdsl/context.py",
-               "/xdsl/traits.py", "/xdsl/dialect_interfaces/", "/xdsl/dialects/utils/", "/xdsl/dialects/test.py")
+def frame_is_tier_b(filename: str) -> bool:
+    """dialect custom syntax: any dialect module except the builtin dialect, and the declarative assembly format engine"""
+    if "/xdsl/dialects/" in filename:
+        return not (filename.endswith("/xdsl/dialects/builtin.py") or "/xdsl/dialects/utils/" in filename)
+    return "/xdsl/irdl/declarative_assembly_format" in filename
 
 
 def setup(job):
@@ -164,9 +167,6 @@ def setup(job):
     G.regex_probe = string_regex_probe(MLIRLexer, deep=bool(job.get("deep_probe")))
     if G.regex_probe["exponential"]:
         install_string_guard(MLIRLexer)
-    import gc
-    gc.collect()
-    gc.freeze()  # children are forked: keep the big preloaded heap out of their collections (no copy-on-write storms)
     G.ready = True
 
 
@@ -325,7 +325,7 @@ def classify_exc(e: BaseException):
     xf = [f for f in frames if "/xdsl/" in f[0] and "/verif/" not in f[0]]
     tier = "A"
     for fn, qn, ln in xf:
-        if not any(p in fn for p in TIERA_FILES):
+        if frame_is_tier_b(fn):
             tier = "B"
             break
     site = xf[-1][1] if xf else (frames[-1][1] if frames else "?")
@@ -561,12 +561,35 @@ def scale_variants(text):
     return out
 
 
-def child_run(job, tasks, a, bnd, out: ChildOut, skip):
+def child_run(job, tasks, a, out: ChildOut):
+    """Runs in the heavy child process (the only one that imports xDSL): tasks[a:], results streamed per batch."""
     from xv import c07_mut
     from xv.worker import journal
-    b = Batch()
+    setup(job)
+    out.line("P", G.regex_probe)
+    state = {"b": Batch()}
+
+    def flush():
+        # violations are streamed at once: a later kill of this child must not lose them
+        b = state["b"]
+        for v in b.violations:
+            out.line("V", v)
+        b.violations.clear()
+
+    def end_batch(nxt):
+        b = state["b"]
+        flush()
+        b.c("string_literals_lexed", G.strings)
+        b.c("string_regex_guard_trips", G.guard_trips)
+        G.strings = 0
+        G.guard_trips = 0
+        d = b.dump()
+        d["next"] = nxt
+        out.line("B", d)
+        state["b"] = Batch()
 
     def monitored(text, seed_text, meta, tidx, sub, unreg, verify_stage=True):
+        b = state["b"]
         text = clean(text)
         journal(text)
         out.line("S", {"t": tidx, "sub": sub, "len": len(text), "cpu": time.process_time(), "unreg": unreg})
@@ -582,26 +605,22 @@ def child_run(job, tasks, a, bnd, out: ChildOut, skip):
         flush()
         return rec, text
 
-    def flush():
-        # violations are streamed at once: a later kill of this child must not lose them
-        for v in b.violations:
-            out.line("V", v)
-        b.violations.clear()
-
-    for tidx in range(a, bnd):
-        if tidx in skip:
-            continue
+    maxlen = int(job.get("pump_maxlen", PUMP_MAXLEN))
+    for tidx in range(a, len(tasks)):
+        b = state["b"]
         kind, k = tasks[tidx]
         if kind in ("pump", "rpump"):
             rng = task_rng(job, kind, k)
             fam = c07_mut.PUMPS[k] if kind == "pump" else c07_mut.random_pump(rng, G.pool)
+            out.line("F", {"family": fam[0], "prefix": fam[1][:300], "unit": (fam[2] or "<numbered items>")[:300],
+                           "suffix": (fam[3] if fam[3] is not None else "<mirrored closers>")[:300]})
             unreg = True
             ladder = []
             kk = 16 if kind == "pump" else 8
             b.c("pump_ladders")
             while kk <= (fam[4] if kind == "rpump" else 1 << 20):
                 text = c07_mut.pump_text(fam, kk)
-                if len(text) > PUMP_MAXLEN:
+                if len(text) > maxlen:
                     break
                 rec, text = monitored(text, None, {"kind": kind, "family": fam[0], "k": kk}, tidx, kk, unreg, verify_stage=False)
                 ladder.append((kk, rec))
@@ -628,7 +647,8 @@ def child_run(job, tasks, a, bnd, out: ChildOut, skip):
                 g = (r1["cpu"] / max(prev, 4e-3)) if prev is not None else None
                 site = r1.get("slow_site") or r1.get("site") or fam[0]
                 wit = {"family": fam[0], "prefix": fam[1], "unit": fam[2], "suffix": fam[3], "k": k1, "len": r1["len"],
-                       "cpu_s": [round(r["cpu"], 4) for _, r in ladder], "ks": [kq for kq, _ in ladder], "budget_s": budget(r1["len"])}
+                       "cpu_s": [round(r["cpu"], 4) for _, r in ladder], "ks": [kq for kq, _ in ladder], "budget_s": budget(r1["len"]),
+                       "text_head": c07_mut.pump_text(fam, 4)[:400]}
                 if g is not None and g >= GROWTH:
                     b.violations.append({"key": f"superlinear:{site}", "summary":
                                          f"pump {fam[0]!r} k={k1} ({r1['len']} chars) took {r1['cpu']:.2f}s CPU (> budget {budget(r1['len']):.2f}s), x{g:.1f} vs k/2",
@@ -639,37 +659,38 @@ def child_run(job, tasks, a, bnd, out: ChildOut, skip):
             if len(ladder) >= 2:
                 b.c("pump_ladders_complete")
             flush()
-            continue
-        text, seed_text, meta = gen_input(job, kind, k)
-        rng = task_rng(job, kind + "/ctx", k)
-        unreg = job["unreg"] if kind == "text" else rng.random() < 0.7
-        rec, text = monitored(text, seed_text, meta, tidx, 0, unreg)
-        if rec["cpu"] > budget(len(text)):
-            b.c("over_budget_inputs")
-            best = None
-            for name, v in scale_variants(text):
-                if len(v) > 400000:
-                    continue
-                r2, v = monitored(v, None, {"kind": "scale-probe", "variant": name}, tidx, 1, unreg, verify_stage=False)
-                g = r2["cpu"] / max(rec["cpu"], 1e-4)
-                if best is None or g > best[0]:
-                    best = (g, name, r2["cpu"], len(v))
-            site = rec.get("slow_site") or rec.get("site") or "?"
-            wit = {"text": text if len(text) < 20000 else text[:20000], "len": len(text), "cpu_s": round(rec["cpu"], 3), "budget_s": budget(len(text)),
-                   "probe": best, "gen": meta, "replay_job": replay_job(text, unreg) if len(text) < 20000 else None}
-            if best and best[0] >= GROWTH:
-                b.violations.append({"key": f"superlinear:{site}", "summary":
-                                     f"{rec['cpu']:.2f}s CPU for {len(text)} chars; {best[1]} -> x{best[0]:.1f}", "witness": wit})
-            else:
-                b.c("over_budget_unconfirmed_observed")
-                b.extra.setdefault("over_budget_unconfirmed", []).append(wit)
-            flush()
-    b.c("string_literals_lexed", G.strings)
-    b.c("string_regex_guard_trips", G.guard_trips)
-    out.line("B", b.dump())
+        else:
+            text, seed_text, meta = gen_input(job, kind, k)
+            rng = task_rng(job, kind + "/ctx", k)
+            unreg = job["unreg"] if kind == "text" else rng.random() < 0.7
+            rec, text = monitored(text, seed_text, meta, tidx, 0, unreg)
+            if rec["cpu"] > budget(len(text)):
+                b.c("over_budget_inputs")
+                best = None
+                for name, v in scale_variants(text):
+                    if len(v) > 400000:
+                        continue
+                    r2, v = monitored(v, None, {"kind": "scale-probe", "variant": name}, tidx, 1, unreg, verify_stage=False)
+                    g = r2["cpu"] / max(rec["cpu"], 1e-4)
+                    if best is None or g > best[0]:
+                        best = (g, name, r2["cpu"], len(v))
+                site = rec.get("slow_site") or rec.get("site") or "?"
+                wit = {"text": text if len(text) < 20000 else text[:20000], "len": len(text), "cpu_s": round(rec["cpu"], 3), "budget_s": budget(len(text)),
+                       "probe": best, "gen": meta, "replay_job": replay_job(text, unreg) if len(text) < 20000 else None}
+                if best and best[0] >= GROWTH:
+                    b.violations.append({"key": f"superlinear:{site}", "summary":
+                                         f"{rec['cpu']:.2f}s CPU for {len(text)} chars; {best[1]} -> x{best[0]:.1f}", "witness": wit})
+                else:
+                    b.c("over_budget_unconfirmed_observed")
+                    b.extra.setdefault("over_budget_unconfirmed", []).append(wit)
+                flush()
+        if (tidx + 1 - a) % BATCH == 0:
+            end_batch(tidx + 1)
+    journal("")
+    end_batch(len(tasks))
 
 
-# ====================================================================== supervisor
+# ====================================================================== supervisor (never imports xDSL: forks stay cheap)
 def _proc_cpu(pid):
     try:
         with open(f"/proc/{pid}/stat") as f:
@@ -681,7 +702,7 @@ def _proc_cpu(pid):
 
 
 def _dump_site(path):
-    """innermost xdsl frame of a faulthandler dump"""
+    """innermost xdsl frame of a faulthandler dump that is not a generic token helper"""
     try:
         with open(path) as f:
             txt = f.read()
@@ -697,8 +718,9 @@ def _dump_site(path):
     return first or "?", txt[-1500:]
 
 
-def run_child(job, tasks, a, bnd, skip, workdir):
-    """fork a child for tasks[a:bnd]; returns dict(status=ok|hang|died, batch=..., at=(tidx, sub, len, unreg), site=...)"""
+def run_child(job, tasks, a, workdir, on_line):
+    """fork a child for tasks[a:]; `on_line(tag, payload)` receives its stream. Returns
+    dict(status=ok|hang|stuck|died, at=(tidx, sub, len, cpu_start, unreg, wall_start), ...)"""
     import faulthandler
     import resource
     rfd, wfd = os.pipe()
@@ -720,7 +742,7 @@ def run_child(job, tasks, a, bnd, skip, workdir):
             signal.signal(signal.SIGVTALRM, _slow_handler)
             out = ChildOut(wfd)
             try:
-                child_run(job, tasks, a, bnd, out, skip)
+                child_run(job, tasks, a, out)
                 code = 0
             except BaseException:  # noqa: BLE001  harness failure: report, never swallow
                 out.line("E", {"tb": traceback.format_exc()[-3000:]})
@@ -729,13 +751,12 @@ def run_child(job, tasks, a, bnd, skip, workdir):
     os.close(wfd)
     buf = b""
     cur = None  # (tidx, sub, len, cpu_start, unreg, wall_start)
-    batch = None
-    streamed = []
     err = None
     status = None
+    done = False
     site, dump = "?", ""
     while True:
-        r, _, _ = select.select([rfd], [], [], 0.2)
+        r, _, _ = select.select([rfd], [], [], 0.25)
         if r:
             data = os.read(rfd, 1 << 16)
             if not data:
@@ -743,22 +764,23 @@ def run_child(job, tasks, a, bnd, skip, workdir):
             buf += data
             while b"\n" in buf:
                 line, buf = buf.split(b"\n", 1)
-                tag, payload = line[:1], json.loads(line[2:].decode("utf-8"))
-                if tag == b"S":
+                tag, payload = line[:1].decode(), json.loads(line[2:].decode("utf-8"))
+                if tag == "S":
                     cur = (payload["t"], payload["sub"], payload["len"], payload["cpu"], payload["unreg"], time.time())
-                elif tag == b"B":
-                    batch = payload
-                elif tag == b"V":
-                    streamed.append(payload)
-                elif tag == b"E":
+                elif tag == "E":
                     err = payload["tb"]
+                else:
+                    if tag == "B" and payload.get("next") == len(tasks):
+                        done = True
+                    on_line(tag, payload)
             continue
         if cur is not None:
             cpu = _proc_cpu(pid)
             limit = HANG_FACTOR * budget(cur[2])
             wall = time.time() - cur[5]
-            if (cpu is not None and cpu - cur[3] > limit) or wall > 15 * limit:
-                status = "hang" if (cpu is not None and cpu - cur[3] > limit) else "stuck"
+            over_cpu = cpu is not None and cpu - cur[3] > limit
+            if over_cpu or wall > 15 * limit:
+                status = "hang" if over_cpu else "stuck"
                 try:
                     os.kill(pid, signal.SIGUSR1)
                     time.sleep(0.3)
@@ -770,73 +792,65 @@ def run_child(job, tasks, a, bnd, skip, workdir):
     os.close(rfd)
     _, st = os.waitpid(pid, 0)
     if status in ("hang", "stuck"):
-        return {"status": status, "at": cur, "site": site, "dump": dump, "cpu_limit": HANG_FACTOR * budget(cur[2]), "streamed": streamed}
+        return {"status": status, "at": cur, "site": site, "dump": dump, "cpu_limit": HANG_FACTOR * budget(cur[2])}
     if err is not None:
         raise RuntimeError("C07 child harness error:\n" + err)
     if os.WIFSIGNALED(st):
-        return {"status": "died", "at": cur, "signal": os.WTERMSIG(st), "streamed": streamed}
-    if batch is None:
-        raise RuntimeError(f"C07 child ended without a batch result (status {st})")
-    return {"status": "ok", "batch": batch, "streamed": streamed}
+        return {"status": "died", "at": cur, "signal": os.WTERMSIG(st)}
+    if not done:
+        raise RuntimeError(f"C07 child ended without finishing its tasks (wait status {st})")
+    return {"status": "ok"}
 
 
 def work(job):
-    import tempfile
     import shutil
-    from xv import c07_mut
-    from xv.worker import journal
-    setup(job)
+    import tempfile
     tasks = task_list(job)
     workdir = tempfile.mkdtemp(prefix="c07-")
     total = Batch()
+    st = {"next": 0, "probe": None, "family": None}
+
+    def on_line(tag, p):
+        if tag == "V":
+            total.violations.append(p)
+        elif tag == "F":
+            st["family"] = p
+        elif tag == "P":
+            st["probe"] = p
+        elif tag == "B":
+            total.evals += p["evals"]
+            total.nontrivial.extend(p["nontrivial"])
+            for k, v in p["counters"].items():
+                if k.startswith("max_"):
+                    total.counters[k] = max(total.counters.get(k, 0), v)
+                else:
+                    total.c(k, v)
+            for k, v in p["sets"].items():
+                total.sets.setdefault(k, set()).update(v)
+            if len(total.samples) < 4:
+                total.samples.extend(p["samples"][:2])
+            for k, v in p["extra"].items():
+                if isinstance(v, dict):
+                    d = total.extra.setdefault(k, {})
+                    for kk, vv in v.items():
+                        d.setdefault(kk, vv)
+                elif isinstance(v, list):
+                    total.extra.setdefault(k, []).extend(v[:5])
+            st["next"] = p["next"]
+
     hangs = 0
+    a = 0
+    n = len(tasks)
     try:
-        # the known mechanism, measured directly (every shard: cheap probe; shard 0: budget-exceeding probe)
-        pr = G.regex_probe
-        total.c("string_regex_probe_runs")
-        total.extra["string_regex_probe"] = pr
-        if pr["exponential"] and job.get("mode") == "fuzz":
-            total.c("string_regex_probe_exponential")
-            total.violations.append({
-                "key": "superlinear:MLIRLexer._lex_string_literal:string-regex-backtracking",
-                "summary": "string-literal token regex backtracks exponentially on an unterminated literal: "
-                           f"'\"'+'a'*9 {pr['t9'] * 1e3:.3f} ms, '\"'+'a'*18 {pr['t18'] * 1e3:.1f} ms"
-                           + (f", n=13 {pr['t13'] * 1e3:.2f} ms, n=26 {pr['t26']:.2f} s (budget 1.03 s)" if "t26" in pr else ""),
-                "witness": {"text": '"' + "a" * 26, "measured": pr, "note": "2x per extra character; any unterminated string literal with a "
-                            "30+ character tail hangs the lexer", "replay_job": replay_job('"' + "a" * 30, True)}})
-        a = 0
-        n = len(tasks)
-        skip = set()
         while a < n:
-            bnd = min(n, a + BATCH)
-            res = run_child(job, tasks, a, bnd, skip, workdir)
-            total.violations.extend(res["streamed"])
+            res = run_child(job, tasks, a, workdir, on_line)
+            total.c("children_spawned")
             if res["status"] == "ok":
-                bt = res["batch"]
-                total.evals += bt["evals"]
-                total.nontrivial.extend(bt["nontrivial"])
-                for k, v in bt["counters"].items():
-                    if k.startswith("max_"):
-                        total.counters[k] = max(total.counters.get(k, 0), v)
-                    else:
-                        total.c(k, v)
-                for k, v in bt["sets"].items():
-                    total.sets.setdefault(k, set()).update(v)
-                if len(total.samples) < 4:
-                    total.samples.extend(bt["samples"][:2])
-                total.violations.extend(bt["violations"])
-                for k, v in bt["extra"].items():
-                    if isinstance(v, dict):
-                        d = total.extra.setdefault(k, {})
-                        for kk, vv in v.items():
-                            d.setdefault(kk, vv)
-                    elif isinstance(v, list):
-                        total.extra.setdefault(k, []).extend(v[:5])
-                a = bnd
-                skip = set()
-                continue
+                break
             # the child was killed (hang) or died (native crash) inside task `tidx`
-            tidx, sub, ln, _, unreg, _ = res["at"] if res["at"] else (a, 0, 0, 0, True, 0)
+            if res["at"] is None:
+                raise RuntimeError(f"C07 child lost before its first input: {res}")
+            tidx, sub, ln, _, unreg, _ = res["at"]
             kind, k = tasks[tidx]
             jp = os.environ.get("XV_JOURNAL")
             text = ""
@@ -844,12 +858,11 @@ def work(job):
                 with open(jp, encoding="utf-8", errors="replace") as f:
                     text = f.read()
             total.evals += 1
-            total.c("inputs_lost_in_killed_batch", max(0, tidx - a))
+            total.c("inputs_lost_in_killed_batch", max(0, tidx - st["next"]))
             wit = {"text": text if len(text) <= 20000 else text[:10000] + "\n...<cut>...\n" + text[-5000:], "len": ln,
                    "task": [kind, k, sub], "allow_unregistered": unreg}
-            if kind in ("pump", "rpump"):
-                fam = c07_mut.PUMPS[k] if kind == "pump" else c07_mut.random_pump(task_rng(job, kind, k), G.pool)
-                wit.update(family=fam[0], prefix=fam[1], unit=fam[2], suffix=fam[3], k=sub)
+            if kind in ("pump", "rpump") and st["family"]:
+                wit.update(st["family"], k=sub)
             if len(text) <= 20000:
                 wit["replay_job"] = replay_job(text, unreg)
             if res["status"] in ("hang", "stuck"):
@@ -867,14 +880,26 @@ def work(job):
             if hangs >= MAX_HANGS_PER_SHARD:
                 total.c("tasks_skipped_after_repeated_hangs", n - tidx - 1)
                 break
-            # continue after the offending task (counters of the killed child's partial batch are gone, its violations
-            # were streamed)
-            a = tidx + 1
-        journal("")
+            a = tidx + 1  # a fresh child continues after the offending task
     finally:
         shutil.rmtree(workdir, ignore_errors=True)
+    # the known mechanism, measured directly in the child (every shard: cheap probe; shard 0: budget-exceeding probe)
+    pr = st["probe"]
+    if pr is None:
+        raise RuntimeError("C07 child never reported the string-regex probe")
+    total.c("string_regex_probe_runs")
+    total.extra["string_regex_probe"] = pr
+    total.c("string_guard_installed", 1 if pr["exponential"] else 0)
+    if pr["exponential"] and job.get("mode") == "fuzz":
+        total.c("string_regex_probe_exponential")
+        total.violations.append({
+            "key": "superlinear:MLIRLexer._lex_string_literal:string-regex-backtracking",
+            "summary": "string-literal token regex backtracks exponentially on an unterminated literal: "
+                       f"'\"'+'a'*9 {pr['t9'] * 1e3:.3f} ms, '\"'+'a'*18 {pr['t18'] * 1e3:.1f} ms"
+                       + (f", n=13 {pr['t13'] * 1e3:.2f} ms, n=26 {pr['t26']:.2f} s (budget 1.03 s)" if "t26" in pr else ""),
+            "witness": {"text": '"' + "a" * 26, "measured": pr, "note": "2x per extra character; any unterminated string literal with a "
+                        "30+ character tail hangs the lexer", "replay_job": replay_job('"' + "a" * 30, True)}})
     total.c("shards_done")
-    total.c("string_guard_installed", 1 if G.guard_installed else 0)
     d = total.dump()
     return {"evaluations": d["evals"], "nontrivial": d["nontrivial"], "samples": d["samples"][:2], "counters": d["counters"],
             "sets": d["sets"], "violations": d["violations"], "extra": d["extra"]}
